@@ -110,6 +110,9 @@ func (comp) Gen(prop string, rng *rand.Rand, tier string) *core.History {
 		if core.Chance(rng, 1, 15) {
 			return -core.Pick(rng, spanTable)
 		}
+		if core.Chance(rng, 1, 25) {
+			return 1 << 62 // a span at the edge of time.Duration: never expires (spans below the clock's noise are not generated: boundary instants cannot be produced against a real clock)
+		}
 		return core.Pick(rng, spanTable)
 	}
 	val := func() string {
